@@ -373,11 +373,6 @@ package geom
 //@   trusted
 
 // ---- operations defined on XY only return XY geometries; orientation forcing keeps the type ----
-//@ func (*nearestPointAccumulator).consider
-//@   modifies n
-//@   ensures same(n.target, old(n.target))
-//@   ensures same(n.point, old(n.point)) || same(n.point, candidate)
-//@   ensures old(n.target.full) && candidate.full && !old(n.point.full) ==> same(n.point, candidate)
 
 //@ func LineString.PointOnSurface
 //@   ensures result.coords.Type == 0
